@@ -172,8 +172,8 @@ template<class V> bool has_extents(V&& v, idx const* e) {  // zero-based extents
 }
 
 struct Store {
-	std::vector<C> mem; std::vector<idx> pos; std::vector<char> isview;
-	void init(idx n) { mem.resize(static_cast<std::size_t>(n)); for(idx p = 0; p < n; ++p) { mem[static_cast<std::size_t>(p)] = sentinel(p); } isview.assign(static_cast<std::size_t>(n), 0); pos.clear(); }
+	std::vector<C> mem, image, snap; std::vector<idx> pos; std::vector<char> isview;
+	void init(idx n) { image.clear(); mem.resize(static_cast<std::size_t>(n)); for(idx p = 0; p < n; ++p) { mem[static_cast<std::size_t>(p)] = sentinel(p); } isview.assign(static_cast<std::size_t>(n), 0); pos.clear(); }
 	template<class V> void bind(V& v, Shape const& sh) {  // where does each logical element live; also checks that the view has the requested extents
 		if(static_cast<idx>(v.num_elements()) != sh.N || !has_extents(v, sh.ext.data())) { harness_bug("view does not have the requested extents"); }
 		for(idx k = 0; k < sh.N; ++k) {
@@ -184,7 +184,15 @@ struct Store {
 	}
 	void fill(C const& v) { for(auto p : pos) { mem[static_cast<std::size_t>(p)] = v; } }
 	void set(std::vector<C> const& x) { for(std::size_t k = 0; k < pos.size(); ++k) { mem[static_cast<std::size_t>(pos[k])] = x[k]; } }
-	idx first_damaged_guard() const { for(std::size_t p = 0; p < mem.size(); ++p) { if(!isview[p] && !biteq(mem[p], sentinel(static_cast<idx>(p)))) { return static_cast<idx>(p); } } return -1; }
+	// every element that is not an element of the view must still hold its sentinel (bitwise).  Fast path: an image holding the sentinels, with the
+	// view's own positions copied from the store, must be bit-identical to the store.
+	idx first_damaged_guard() {
+		if(image.size() != mem.size()) { image.resize(mem.size()); for(std::size_t p = 0; p < mem.size(); ++p) { image[p] = sentinel(static_cast<idx>(p)); } }
+		for(auto p : pos) { image[static_cast<std::size_t>(p)] = mem[static_cast<std::size_t>(p)]; }
+		if(std::memcmp(image.data(), mem.data(), mem.size() * sizeof(C)) == 0) { return -1; }
+		for(std::size_t p = 0; p < mem.size(); ++p) { if(!isview[p] && !biteq(mem[p], sentinel(static_cast<idx>(p)))) { return static_cast<idx>(p); } }
+		harness_bug("guard image differs but no damaged guard found");
+	}
 	idx padding() const { return static_cast<idx>(mem.size() - pos.size()); }
 };
 
@@ -267,17 +275,23 @@ struct Fail {
 template<int D> std::array<bool, D> which_of(unsigned mask) { std::array<bool, D> w{}; for(int d = 0; d < D; ++d) { w[static_cast<std::size_t>(d)] = ((mask >> d) & 1U) != 0; } return w; }
 
 // one call + all checks.  `call` performs the library call; `src` = the store of a DISTINCT input (nullptr when in place); `dst` view/store = output.
+struct Lazy {  // description of the input, only materialised when something has to be reported
+	std::function<std::string()> f;
+	Lazy(char const* s) : f([s] { return std::string(s); }) {}  // NOLINT(google-explicit-constructor)
+	template<class F, class = decltype(std::declval<F&>()())> Lazy(F fn) : f(std::move(fn)) {}  // NOLINT(google-explicit-constructor)
+};
 template<class Call, class Out>
-void checked_call(Call&& call, Store* src, Out& out, Store& dst, Shape const& sh, std::vector<C> const& ref, double tol, char const* phase, std::string const& input, Fail& fl, double& maxerr, std::vector<C>* got_out = nullptr) {
-	std::vector<C> src_before; if(src) { src_before = src->mem; }
+void checked_call(Call&& call, Store* src, Out& out, Store& dst, Shape const& sh, std::vector<C> const& ref, double tol, char const* phase, Lazy const& input_name, Fail& fl, double& maxerr, std::vector<C>* got_out = nullptr) {
+	if(src) { src->snap.assign(src->mem.begin(), src->mem.end()); }  // (no reallocation after the first call)
 	call();
 	Cmp c = compare(out, sh, ref, tol, maxerr, got_out);
-	auto fill_common = [&] { fl.phase = phase; fl.input = input; fl.tolerance = tol == 0.0 ? "exact (==)" : std::to_string(tol); };
+	auto fill_common = [&] { fl.phase = phase; fl.input = input_name.f(); fl.tolerance = tol == 0.0 ? "exact (==)" : std::to_string(tol); };
 	if(c.bad) {
 		fl.add(c.untouched ? "output-untouched" : "wrong-values"); fill_common();
 		fl.where = "output element " + tup_str(sh.t(c.k), sh.D); fl.expected = c_str(c.exp); fl.got = c_str(c.got);
 	}
-	if(src && std::memcmp(src_before.data(), src->mem.data(), src_before.size() * sizeof(C)) != 0) {
+	if(src && std::memcmp(src->snap.data(), src->mem.data(), src->mem.size() * sizeof(C)) != 0) {
+		std::vector<C> const& src_before = src->snap;
 		std::size_t p = 0; while(biteq(src_before[p], src->mem[p])) { ++p; }
 		bool first = !fl.any(); fl.add(src->isview[p] ? "input-modified" : "input-store-padding-modified");
 		if(first) { fill_common(); fl.where = "input store offset " + std::to_string(p); fl.expected = c_str(src_before[p]); fl.got = c_str(src->mem[p]); }
@@ -313,7 +327,7 @@ template<int D> Outcome run_config(Cfg const& c, Group const& g) {
 					auto p = static_cast<std::size_t>(si.pos[static_cast<std::size_t>(b / 2)]);
 					si.mem[p] = (b % 2 == 0) ? C{1, 0} : C{0, 1}; so.fill(MARK);
 					bool keep = c.want_sample && b == 2 * sh.N - 1; if(keep) { last_input = basis_name(b); }
-					checked_call([&] { fftw::dft(w, in, out, sg); }, &si, out, so, sh, g.bref[static_cast<std::size_t>(b)], g.tol_basis, "basis", basis_name(b), fl, o.maxerr, keep ? &last_got : nullptr);
+					checked_call([&] { fftw::dft(w, in, out, sg); }, &si, out, so, sh, g.bref[static_cast<std::size_t>(b)], g.tol_basis, "basis", [&] { return basis_name(b); }, fl, o.maxerr, keep ? &last_got : nullptr);
 					++o.calls; si.mem[p] = C{0, 0};
 				}
 				// (2) dense integers through the helpers, then the opposite helper into a third view: N_transformed * identity
@@ -338,7 +352,7 @@ template<int D> Outcome run_config(Cfg const& c, Group const& g) {
 				for(idx b = 0; b < 2 * sh.N && !fl.any(); ++b) {
 					sio.fill(C{0, 0}); sio.mem[static_cast<std::size_t>(sio.pos[static_cast<std::size_t>(b / 2)])] = (b % 2 == 0) ? C{1, 0} : C{0, 1};
 					bool keep = c.want_sample && b == 2 * sh.N - 1; if(keep) { last_input = basis_name(b); }
-					checked_call([&] { fftw::dft(w, io, sg); }, nullptr, io, sio, sh, g.bref[static_cast<std::size_t>(b)], g.tol_basis, "basis", basis_name(b), fl, o.maxerr, keep ? &last_got : nullptr);
+					checked_call([&] { fftw::dft(w, io, sg); }, nullptr, io, sio, sh, g.bref[static_cast<std::size_t>(b)], g.tol_basis, "basis", [&] { return basis_name(b); }, fl, o.maxerr, keep ? &last_got : nullptr);
 					++o.calls;
 				}
 				if(!fl.any()) {
@@ -511,7 +525,16 @@ int main(int argc, char** argv) {
 					Group g(ext, mask, sign);
 					auto cfgs = group_configs(D, ext, mask, sign);
 					if(mc::R.samples.size() < 4 && g.sh.N >= 4 && mask != 0 && !identity_transform(cfgs[0])) {  // written-out samples: one per group until 4 are collected
-						for(auto& c : cfgs) { if((D == 1 && c.mode == M_OOP && c.lin == L_STRIDED && c.lout == L_SUB) || (D >= 2 && c.mode == M_OOP && c.lin == L_ROT && c.lout == L_STRIDED && (groups_run % 2 == 0)) || (D >= 2 && c.mode == M_INPLACE && c.lin == L_SUBROT && (groups_run % 2 == 1))) { c.want_sample = true; } }
+						auto have = mc::R.samples.size();
+						for(auto& c : cfgs) {
+							if(D == 1) { c.want_sample = c.mode == M_OOP && c.lin == L_STRIDED && c.lout == L_SUB; continue; }
+							switch(have) {
+								case 0: c.want_sample = c.mode == M_OOP && c.lin == L_ROT && c.lout == L_STRIDED; break;
+								case 1: c.want_sample = c.mode == M_INPLACE && c.lin == L_SUBROT; break;
+								case 2: c.want_sample = c.mode == M_OOP && c.lin == L_SUB && c.lout == L_TRANSP; break;
+								default: c.want_sample = c.mode == M_OOP && c.lin == L_UNROT && c.lout == L_CONTIG; break;
+							}
+						}
 					}
 					run_group(cfgs, g, nofork);
 					++groups_run; cfgs_per_D[D] += static_cast<long>(cfgs.size()); ++groups_per_D[D];
@@ -527,7 +550,7 @@ int main(int argc, char** argv) {
 	}
 	mc::R.add("evaluations", T.evaluations); mc::R.add("distinct_nontrivial", T.nontrivial); mc::R.add("rejected", T.rejected); mc::R.add("correct", T.correct); mc::R.add("violating", T.violating);
 	mc::R.add("library_calls", T.calls); mc::R.add("children", T.children); mc::R.add("child_deaths", T.child_deaths); mc::R.add("configurations_compared_exactly", T.exact_cfgs);
-	{ char b[160]; std::snprintf(b, sizeof b, "largest |got-reference|/tolerance among accepted elements in this shard: %.3g (tolerance 64*eps*N*sum|x|; exact == where all transformed extents are 1, 2 or 4)", T.maxerr); mc::R.note(b); }
+	{ char b[320]; std::snprintf(b, sizeof b, "largest |got-reference|/tolerance among accepted elements in this shard: %.3g (tolerance 64*eps*N*sum|x|; exact == where all transformed extents are 1, 2 or 4)", T.maxerr); mc::R.note(b); }
 	mc::R.note("distinct_nontrivial = configurations whose transform is not the identity (some transformed extent >= 2); all extents are >= 1 in every configuration");
 	{ int k = 0; for(auto const& [cls, n] : T.rejected_classes) { if(k++ >= 12) { break; } mc::R.note("rejected x" + std::to_string(n) + ": " + cls); } }
 	mc::R.emit(stdout);
